@@ -1,21 +1,23 @@
 #!/bin/sh
-# devrun.sh <ID> <seed_base> <nruns> [tier]: run a batch with the dev binary, print summary
+# devrun.sh <ID> <seed_base> <nruns> [tier]: run a batch with the dev binary ($DEVDIR, default /tmp/vb), print a summary.
 id=$1; base=$2; n=$3; tier=${4:-quick}
-cd /tmp/vb && rm -f out.json
-VSIM_MODE=batch VSIM_PROP=$id VSIM_TIER=$tier VSIM_SEED_BASE=$base VSIM_WORKER=0 VSIM_NWORKERS=1 VSIM_BUDGET_S=600 VSIM_MAXRUNS=$n VSIM_OUT=/tmp/vb/out.json VSIM_INFLIGHT=/tmp/vb/inflight.json VSIM_WATCHDOG_S=20 GOMAXPROCS=1 GODEBUG=asyncpreemptoff=1 ./sim.test -test.run '^TestWorker$' -test.timeout 0 > /tmp/vb/log.txt 2>&1
+D=${DEVDIR:-/tmp/vb}
+cd $D && rm -f out.json
+VSIM_MODE=batch VSIM_PROP=$id VSIM_TIER=$tier VSIM_SEED_BASE=$base VSIM_WORKER=0 VSIM_NWORKERS=1 VSIM_BUDGET_S=600 VSIM_MAXRUNS=$n VSIM_OUT=$D/out.json VSIM_INFLIGHT=$D/inflight.json VSIM_WATCHDOG_S=20 GOMAXPROCS=1 GODEBUG=asyncpreemptoff=1 ./sim.test -test.run '^TestWorker$' -test.timeout 0 > $D/log.txt 2>&1
 echo "exit=$?"
-python3 - <<'PY'
+D=$D python3 - <<'PY'
 import json,os
-if os.path.exists('/tmp/vb/out.json'):
-    d=json.load(open('/tmp/vb/out.json'))
-    print('runs',d['runs'],'nontrivial',d['nontrivial'],'wall',round(d['wall_s'],2),'steps',d['steps'],'sim_s',d['sim_ns']/1e9)
+D=os.environ['D']
+if os.path.exists(D+'/out.json'):
+    d=json.load(open(D+'/out.json'))
+    print('runs',d['runs'],'nontrivial',d['nontrivial'],'wall',round(d['wall_s'],2),'steps',d['steps'],'sim_s',d['sim_ns']/1e9,'inconclusive',d['inconclusive'])
     print('faults',d['faults'])
     print('probes',d['probes'])
     print('yields',d['yield_hits'])
     v=d.get('violation')
     if v:
-        print('VIOLATION seed',v['seed'],v['class']); print(v['detail'][:3000]); print(json.dumps(json.loads(json.dumps(v['scenario'])))[:1500])
+        print('VIOLATION seed',v['seed'],v['class']); print(v['detail'][:3000]); print(json.dumps(v['scenario'])[:1500])
         for l in (v.get('tail') or [])[-25:]: print('  ',l)
 else:
-    print(open('/tmp/vb/log.txt').read()[-6000:])
+    print(open(D+'/log.txt').read()[-6000:])
 PY
